@@ -97,6 +97,89 @@ def random_recipe(rng, n):
         return v
     return build
 
+EXTRA = r"""
+import sys, json
+sys.path.insert(0, %r)
+import sec_cost as C
+import prettyprinter as pp
+pp.install_extras(['ipython_repr_pretty', 'dataclasses', 'attrs'], warn_on_error=False)
+sys.setrecursionlimit(100000)
+import dataclasses
+
+class Box:
+    def __init__(self, child): self.child = child
+    def _repr_pretty_(self, p, cycle):
+        with p.group(4, 'Box(', ')'):
+            p.breakable('')
+            p.pretty(self.child)
+
+class Pair:
+    def __init__(self, a, b): self.a, self.b = a, b
+    def _repr_pretty_(self, p, cycle):
+        with p.group(2, 'Pair(', ')'):
+            p.pretty(self.a); p.text(','); p.breakable(); p.pretty(self.b)
+
+class KeyObj:
+    # the documented way to make repr() pretty: __repr__ = pretty_repr
+    def __init__(self, p): self.p = p
+    __repr__ = pp.pretty_repr
+
+@pp.register_pretty(KeyObj)
+def _pk(v, ctx): return pp.pretty_call(ctx, KeyObj, v.p)
+
+@dataclasses.dataclass
+class DC:
+    child: object
+    tag: int = 0
+
+def nest(f, n, base):
+    v = base
+    for _ in range(n): v = f(v)
+    return v
+
+FAMS = {
+    'repr_pretty_nested': (lambda n: nest(Box, n, 1), {}),
+    'repr_pretty_pairs': (lambda n: nest(lambda v: Pair(0, v), n, 1), {}),
+    'repr_pretty_in_lists': (lambda n: nest(lambda v: [Box(v)], n, 1), {}),
+    'unorderable_keys_with_pretty_repr': (lambda n: nest(lambda v: {KeyObj(v): 1, 'other': 2}, n, 1), {'sort_dict_keys': True}),
+    # the same with sorting switched on through set_default_config, so that a repr() that re-enters the printer sorts too
+    'unorderable_keys_with_pretty_repr_default_sorted': (lambda n: nest(lambda v: {KeyObj(v): 1, 2: 2}, n, 1), {'_defaults': {'sort_dict_keys': True}}),
+    'unorderable_keys_flat': (lambda n: {**{KeyObj(i): i for i in range(3 * n)}, **{str(i): i for i in range(3 * n)}}, {'sort_dict_keys': True}),
+    'nested_dataclasses': (lambda n: nest(lambda v: DC(v), n, 1), {}),
+}
+sizes = json.loads(sys.argv[1])
+rows = {}
+for name, (fam, st) in FAMS.items():
+    steps = []
+    st = dict(st)
+    dflt = st.pop('_defaults', None)
+    for n in sizes:
+        if dflt:
+            pp.set_default_config(**dflt)
+        try:
+            s, over = C.count_steps(fam(n), **st)
+        finally:
+            if dflt:
+                pp.set_default_config(sort_dict_keys=False)
+        steps.append((n, s, over))
+        if over:
+            break
+    rows[name] = steps
+print('@@' + json.dumps(rows))
+"""
+
+
+def extra_families(sizes):
+    """families that need extras / registrations of their own: measured in a fresh interpreter"""
+    import json
+    import subprocess
+    here = os.path.dirname(os.path.abspath(__file__))
+    p = subprocess.run([sys.executable, '-c', EXTRA % (here,), json.dumps(sizes)], stdout=subprocess.PIPE, stderr=subprocess.PIPE, text=True, timeout=1800)
+    for line in p.stdout.splitlines():
+        if line.startswith('@@'):
+            return json.loads(line[2:])
+    raise RuntimeError('extra cost families produced no result: ' + p.stderr[-500:])
+
 
 def cost_section(tier, seed):
     rng = random.Random(seed * 59 + 16)
@@ -150,12 +233,25 @@ def cost_section(tier, seed):
             nt += 1
     finally:
         drv.close()
-    stats = {'evaluations': tot, 'distinct_nontrivial': nt, 'families': len(fams), 'sizes': [base * m for m in mults],
+    for name, steps in extra_families([base * m for m in mults]).items():
+        steps = [tuple(x) for x in steps]
+        tot += len(steps)
+        nt += 1
+        ratios = [steps[i + 1][1] / max(1, steps[i][1]) for i in range(len(steps) - 1)]
+        rows[name] = {'steps': steps, 'model_cost': [None] * len(steps), 'ratios': [round(r, 2) for r in ratios]}
+        bad = None
+        if any(o for _, _, o in steps):
+            bad = 'step budget exceeded at n=%d' % steps[-1][0]
+        elif ratios and max(ratios) > RATIO:
+            bad = 'doubling ratio %.1f' % max(ratios)
+        if bad:
+            fails.append({'kind': 'cost-family', 'family': name, 'why': bad, 'steps': steps, 'ratios': rows[name]['ratios']})
+    stats = {'evaluations': tot, 'distinct_nontrivial': nt, 'families': len(rows), 'sizes': [base * m for m in mults],
              'ratio_limit': RATIO, 'rows': rows, 'mismatches': 0,
              'samples': [{'family': 'nested_dicts_3keys', 'steps': rows['nested_dicts_3keys']['steps']}],
-             'rule': 'LINE events inside /repo/prettyprinter (sys.monitoring) for %d families at n = %s; a family fails if a doubling multiplies the step count by more than %.0f, '
+             'rule': 'LINE events inside /repo/prettyprinter (sys.monitoring) for %d families (incl. 7 measured in a fresh interpreter with the ipython_repr_pretty / dataclasses / attrs extras: nested _repr_pretty_ objects, unorderable dict keys whose repr is pretty_repr, nested dataclasses) at n = %s; a family fails if a doubling multiplies the step count by more than %.0f, '
                      'if the step budget is exceeded, or if steps exceed 4 x the calibrated constant x the model cost (printer invocations + machine and lookahead iterations); '
-                     'non-trivial = families measured' % (len(fams), [base * m for m in mults], RATIO)}
+                     'non-trivial = families measured' % (len(rows), [base * m for m in mults], RATIO)}
     return stats, mism, fails
 
 
